@@ -339,7 +339,7 @@ def spans(toks, text):
 
 
 def sig_straddle(case, obs):
-    """F-C12a: for some pattern or sentinel, an occurrence of the whole-text scan
+    """(region of the former F-C12a) for some pattern or sentinel, an occurrence of the whole-text scan
     is completed in a (delivered) read and another occurrence straddles the end
     of that same read."""
     for sid in (0, 1):
@@ -367,7 +367,7 @@ def sig_straddle(case, obs):
 
 
 def sig_tried(case, obs):
-    """F-C12b: in a read that is not the stream's first, a failing watcher's
+    """(region of the former F-C12b) in a read that is not the stream's first, a failing watcher's
     sentinel is completed although that watcher has not answered in an earlier
     read (the latched `tried` makes it raise all the same)."""
     for sid in (0, 1):
@@ -547,15 +547,15 @@ class C12(Prop):
         tag = "%s/%dstream/%s" % (case["how"], streams, kind)
         if obs["exc"]:
             tag += "/raised"
-        elif sig_straddle(case, obs):
-            tag += "/straddle"
+        if sig_straddle(case, obs):
+            tag += "/straddle"          # region of the former F-C12a
+        if sig_tried(case, obs):
+            tag += "/sentinel-before-response"   # region of the former F-C12b
         return tag
 
     def finding_of(self, case, obs):
-        if sig_tried(case, obs):
-            return "F-C12b"
-        if sig_straddle(case, obs):
-            return "F-C12a"
+        # F-C12a / F-C12b are fixed in /repo (28f435d, 380f659): nothing is attributed
+        # any more; sig_straddle / sig_tried only label the input distribution.
         return None
 
     def shrink_candidates(self, case):
